@@ -168,6 +168,7 @@ def run(ctx):
         else:
             each = [(a_all, b_all, j_all, "")]
         mism = False
+        keyf = " ".join(o.split() if kind in hist_names else o.split()[1:])
         for a, b, j, where in each:
             f = a.split()
             if not where:
@@ -176,14 +177,14 @@ def run(ctx):
                 issued.add(o + where)
             # judge: the property's predicate on what the real handler did
             if f[0] == "issued" and not j.startswith("issued"):
-                c.add_violation(ctx, "issued:" + " ".join(o.split()[1:]),
+                c.add_violation(ctx, "issued:" + keyf,
                                 "real certGenHandler issued a certificate (%s) where the proved decision refuses (%s)%s" % (a, j, where),
                                 {"op": o, "impl": a_all, "model": b_all, "judge": j_all})
             elif f[0] == "issued" and a != j:
-                c.add_violation(ctx, "principal:" + " ".join(o.split()[1:]), "issued for another principal: impl %s judge %s%s" % (a, j, where),
+                c.add_violation(ctx, "principal:" + keyf, "issued for another principal: impl %s judge %s%s" % (a, j, where),
                                 {"op": o, "impl": a_all, "model": b_all, "judge": j_all})
             elif f[0] in ("noresponse", "refused-but-signed", "panic", "hung") or (f[0] == "refused" and int(f[1]) < 400):
-                c.add_violation(ctx, "no-error:" + " ".join(o.split()[1:]),
+                c.add_violation(ctx, "no-error:" + keyf,
                                 "request that is not served did not receive an error status: %s%s" % (a, where),
                                 {"op": o, "impl": a_all, "model": b_all})
             elif a != b:
